@@ -1,0 +1,3 @@
+//! Facade for the RIB HTTP query API (C11): the fixture lives next to the
+//! crate-private `rib_unit` items it wraps.
+pub use crate::units::rib_unit::verif_hooks_c11::RibQueryFixture;
